@@ -847,6 +847,12 @@ FAMILY = [
      "def f(p: P): pass",
      "f({'x': 1, 'y': 2, 'z': 3})",
      "p: P = {'q': 1, 'r': 2}"],
+    ["import lib",
+     "def a1(x: lib.Alpha, y: lib.Beta) -> lib.Gamma:\n  return lib.Gamma()",
+     "def a2(x: lib.Delta) -> lib.Epsilon:\n  return lib.Epsilon()",
+     "class Mine(lib.Zeta):\n  def m(self, e: lib.Eta) -> 'lib.Theta':\n    return lib.Theta()",
+     "vals = [lib.Alpha(), lib.Beta(), lib.Iota()]",
+     "k = lib.Kappa"],
     ["from typing import Any, Callable, Optional, Union",
      "def ident(x: Any) -> Any:\n  return x",
      "def cb(f: Callable[[int], Optional[str]], g: Union[int, str]) -> Callable[..., Any]:\n  return f",
@@ -862,6 +868,19 @@ def prog_text(chunks):
 HISTORIES = ["fresh", "after_k", "reused_loader"]
 
 
+LIB_PYI = "\n".join("class %s:\n    x: int\n" % n for n in
+                    ["Alpha", "Beta", "Gamma", "Delta", "Epsilon", "Zeta", "Eta", "Theta", "Iota", "Kappa"])
+
+
+def ensure_lib():
+  d = os.path.join(WORK, "lib")
+  os.makedirs(d, exist_ok=True)
+  p = os.path.join(d, "lib.pyi")
+  if not os.path.exists(p) or open(p).read() != LIB_PYI:
+    open(p, "w").write(LIB_PYI)
+  return d
+
+
 def run_children(jobs, max_workers=16, timeout=900):
   """jobs: list of dict(hashseed, history, clock_offset, items). Returns list of child outputs (or error dicts)."""
   common.ensure_ext()
@@ -869,6 +888,7 @@ def run_children(jobs, max_workers=16, timeout=900):
   os.makedirs(run_dir, exist_ok=True)
   env_base = dict(os.environ)
   env_base["PYTHONPATH"] = common.VERIF + os.pathsep + env_base.get("PYTHONPATH", "")
+  env_base["C04_LIB_DIR"] = ensure_lib()
 
   def one(ij):
     i, job = ij
@@ -980,7 +1000,7 @@ def k2_matrix(res, rng, tier, disagreements):
   all_progs = {"P%03d" % i: (FAMILY[i] if i < len(FAMILY) else gen_program(rng)) for i in range(n_prog)}
   # the unrelated analyses that precede a target include modules that use typing members and TypeVars, so that
   # state surviving in the printer / loader / visitors between analyses has something to carry over
-  unrelated = [prog_text(gen_program(rng, 5)) for _ in range(8)] + [prog_text(FAMILY[5]), prog_text(FAMILY[2]),
+  unrelated = [prog_text(gen_program(rng, 5)) for _ in range(8)] + [prog_text(FAMILY[6]), prog_text(FAMILY[2]),
                                                                    prog_text(FAMILY[1]), prog_text(FAMILY[0])]
   rng.shuffle(unrelated)
   t0 = time.time()
